@@ -304,9 +304,33 @@ def optimum_assignment(spec, per):
     return float(big[r, c].sum())  # with n = 2, C(n,2) = 1: unitary disorder = pair cost
 
 
+_HIGHS_PATCHED = False
+
+
+def _single_thread_highs():
+    """HiGHS starts one worker thread per core; with 16 worker processes that is pure contention.
+    scipy.optimize.milp does not expose the option, so the (private) wrapper gets it injected."""
+    global _HIGHS_PATCHED
+    if _HIGHS_PATCHED:
+        return
+    _HIGHS_PATCHED = True
+    try:
+        import scipy.optimize._milp as _m
+        orig = _m._highs_wrapper
+
+        def wrapper(c, indptr, indices, data, b_l, b_u, lb, ub, integrality, options):
+            options = dict(options)
+            options.setdefault("threads", 1)
+            return orig(c, indptr, indices, data, b_l, b_u, lb, ub, integrality, options)
+        _m._highs_wrapper = wrapper
+    except Exception:
+        pass
+
+
 def optimum_milp(per, costs, cover=False):
     """returns (upper, lower): value of HiGHS's feasible solution and its dual bound"""
     from scipy.optimize import milp, LinearConstraint, Bounds
+    _single_thread_highs()
     from scipy.sparse import csc_matrix
     tc, tm, _ = _tuples_and_masks(per, costs)
     nunits = sum(len(p) for p in per)
@@ -322,21 +346,30 @@ def optimum_milp(per, costs, cover=False):
     A = csc_matrix((np.ones(len(rows)), (rows, cols)), shape=(nunits, len(tc)))
     cons = LinearConstraint(A, lb=np.ones(nunits), ub=(np.full(nunits, np.inf) if cover else np.ones(nunits)))
     res = milp(c=np.array(tc), constraints=[cons], integrality=np.ones(len(tc)), bounds=Bounds(0, 1),
-               options={"mip_rel_gap": 0.0, "presolve": True})
-    if res.status != 0 or res.x is None:
+               options={"mip_rel_gap": 0.0, "presolve": True, "time_limit": MILP_TIME_LIMIT})
+    # status 0: optimal; 1: time limit (highly symmetric instances) - both bounds stay valid, the check is
+    # two-sided against [lower, upper] and merely becomes weaker; anything else is a harness error
+    if res.status not in (0, 1):
         raise HarnessError(f"oracle MILP did not solve: status={res.status} {res.message}")
-    x = np.round(res.x)
-    cov = A @ x
-    if cover:
-        ok = np.all(cov >= 1 - 1e-9)
-    else:
-        ok = np.all(np.abs(cov - 1) < 1e-9)
-    if not ok:
-        raise HarnessError("oracle MILP solution infeasible")
-    upper = float(np.dot(np.array(tc), x))
-    lower = float(res.mip_dual_bound) if getattr(res, "mip_dual_bound", None) is not None else upper
-    lower = min(lower, upper)
+    upper = math.inf
+    if res.x is not None:
+        x = np.round(res.x)
+        cov = A @ x
+        if cover:
+            ok = np.all(cov >= 1 - 1e-9)
+        else:
+            ok = np.all(np.abs(cov - 1) < 1e-9)
+        if not ok:
+            raise HarnessError("oracle MILP solution infeasible")
+        upper = float(np.dot(np.array(tc), x))
+    lower = getattr(res, "mip_dual_bound", None)
+    if lower is None or not np.isfinite(lower):
+        lower = upper if res.status == 0 else 0.0
+    lower = min(float(lower), upper)
     return upper, lower
+
+
+MILP_TIME_LIMIT = 6.0
 
 
 def optimum(spec, per_dict, cover=False, force=None):
